@@ -6,9 +6,17 @@
   2. The assembly step of `lib.rs:693-702` only: the trait is emitted verbatim, everything else goes into one
      anonymous constant. These statements are definitional facts about the model `expandTop` of that step;
      what is *inside* the anonymous constant (hygiene of the generated items) is not covered here.
+  3. (last section) The assembly step tied to the generators of `Expand.lean`: `expandAll trait? groups` runs the three
+     generators on every family in order and renders the result; `C08_expandAll_top_level` (trait verbatim + one
+     `const _`, nothing else in inherent mode), `C08_helper_names_in_const` (helper trait of family `idx` is named
+     `genIdent n idx`), distinctness in trait mode, and two counterexamples: helper names CAN clash in inherent mode
+     with eleven or more families on different self types (`C08_inherent_helper_names_clash_counterexample`, new), and
+     a user item named like a helper is shadowed inside the constant (`C08_user_item_shadowed_counterexample`, D11).
 -/
 import DisjointImpls.Lemmas.Names
 import DisjointImpls.Validate
+import DisjointImpls.Lemmas.ExpandEmit
+import DisjointImpls.Props.C17
 namespace DI
 
 /-! ## Helper-trait names -/
@@ -110,5 +118,175 @@ example :
     ((invs.filterMap (·.trait_)).map traitIdent) = ["Kita", "Other"] ∧
     (invs.flatMap Invocation.scope).flatMap ScopeItem.boundNames = ["Kita", "Other"] ∧
     (invs.flatMap Invocation.scope).length = 5 := by decide
+
+/-! ## The assembly step tied to the generators of `Expand.lean`
+
+`expandParts_em trait_ groups` (`Lemmas/ExpandEmit.lean`) runs, for every family `g` of `groups` with its index `idx`
+(`enumerate()`, lib.rs:693-707), the three generators of the model — `helperTraitOfTrait` / `helperTraitOfInherent`
+(with `idents().count()` key parameters), `helperImpls`, `mainImplOfTrait` / `mainImplInherent` — and is `none` if one of
+them panics or leaves the modelled fragment. `expandAll` renders `expandTop` of the results as item trees: the trait (if
+any) and ONE `const _: () = { helper traits; helper impls; main impls };` (`anonConst_em`). -/
+
+/-- a scope item as an item tree -/
+def renderScopeItem : ScopeItem → T
+  | .named t => t
+  | .anonymous items => anonConst_em items
+
+/-- what `disjoint_impls!` expands to, as a list of top-level items (`none`: a generator fails) -/
+def expandAll (trait_ : Option T) (groups : Groups) : Option (List T) :=
+  (expandParts_em trait_ groups).map (fun ps =>
+    (scopeItems (expandTop trait_ (partsHelpers_em ps) (partsHelperImpls_em ps) (partsMainImpls_em ps))).map renderScopeItem)
+
+/-- **Top-level shape.** Whenever the expansion exists, its top-level items are exactly the trait the user wrote —
+    the SAME tree, first — followed by one `const _: () = { … }` that contains one helper trait per family (in family
+    order), then all helper impls, then the main impls; in inherent mode the `const _` is the only item. The only
+    names bound in the enclosing scope are those of the user's trait (`itemBoundNames_em`: a trait binds its
+    identifier, `const _` binds nothing). No side condition. -/
+theorem C08_expandAll_top_level (trait_ : Option T) (groups : Groups) (items : List T)
+    (h : expandAll trait_ groups = some items) :
+    ∃ ps, expandParts_em trait_ groups = some ps ∧ ps.length = groups.length ∧
+      (partsHelpers_em ps).length = groups.length ∧
+      items = trait_.toList ++ [anonConst_em (partsHelpers_em ps ++ partsHelperImpls_em ps ++ partsMainImpls_em ps)] ∧
+      items.flatMap itemBoundNames_em = trait_.toList.flatMap itemBoundNames_em := by
+  unfold expandAll at h
+  cases hp : expandParts_em trait_ groups with
+  | none => rw [hp] at h; cases h
+  | some ps =>
+    rw [hp] at h
+    simp only [Option.map_some, Option.some.injEq] at h
+    subst h
+    have hlen := expandParts_length_em hp
+    refine ⟨ps, rfl, hlen, by simp [partsHelpers_em, hlen], ?_, ?_⟩
+    · cases trait_ <;> simp [scopeItems, expandTop, renderScopeItem]
+    · cases trait_ <;> simp [scopeItems, expandTop, renderScopeItem, itemBoundNames_anonConst_em]
+
+/-- trait mode: two items, the user's trait verbatim and the anonymous constant; the scope gains the trait's name only
+    (side condition, executable: the trait is an `ItemTrait` tree with an identifier, `isItemTrait_em`) -/
+theorem C08_expandAll_trait_mode (t : T) (groups : Groups) (items : List T) (h : expandAll (some t) groups = some items) :
+    ∃ inner, items = [t, anonConst_em inner] ∧
+      (isItemTrait_em t = true → items.flatMap itemBoundNames_em = [traitIdent t]) := by
+  obtain ⟨ps, _, _, _, hi, hn⟩ := C08_expandAll_top_level (some t) groups items h
+  refine ⟨_, hi, fun ht => ?_⟩
+  rw [hn]
+  simp [itemBoundNames_of_isItemTrait_em ht]
+
+/-- inherent mode: nothing at all is added to the enclosing scope except one anonymous constant -/
+theorem C08_expandAll_inherent_mode (groups : Groups) (items : List T) (h : expandAll none groups = some items) :
+    ∃ inner, items = [anonConst_em inner] ∧ items.flatMap itemBoundNames_em = [] := by
+  obtain ⟨ps, _, _, _, hi, hn⟩ := C08_expandAll_top_level none groups items h
+  exact ⟨_, hi, by rw [hn]; rfl⟩
+
+/-- **Helper names.** The helper trait generated for family `idx` is named `genIdent n idx` = `_<n><idx>`, where `n`
+    is the user's trait's identifier (trait mode) or the identifier of the self type of the family's first block
+    (inherent mode; `helperBaseName_em`). No side condition beyond the existence of the expansion. -/
+theorem C08_helper_names_in_const (trait_ : Option T) (groups : Groups) (ps : List (T × List T × Option T))
+    (h : expandParts_em trait_ groups = some ps) :
+    (partsHelpers_em ps).map traitIdent =
+      (List.zip (List.range groups.length) groups).map (fun ig => genIdent (helperBaseName_em trait_ ig.2) ig.1) :=
+  partsHelpers_names_em h
+
+/-- trait mode: the helper traits are named `_<Trait>0, …, _<Trait>(n-1)`: pairwise different and different from the
+    trait's own name -/
+theorem C08_expandAll_helper_names_trait (t : T) (groups : Groups) (ps : List (T × List T × Option T))
+    (h : expandParts_em (some t) groups = some ps) :
+    (partsHelpers_em ps).map traitIdent = (List.range groups.length).map (genIdent (traitIdent t)) ∧
+    ((partsHelpers_em ps).map traitIdent).Nodup ∧ traitIdent t ∉ (partsHelpers_em ps).map traitIdent := by
+  have := partsHelpers_names_trait_em h
+  rw [this]
+  exact ⟨rfl, C08_helper_names_nodup _ _, C08_helper_names_avoid_trait _ _⟩
+
+/-- inherent mode, PARTIAL: when all families are on the same self-type name `n` (executable side condition), the helper
+    traits are named `_<n>0, …, _<n>(k-1)`: pairwise different and different from `n`. Without the side condition the
+    names can clash: `C08_inherent_helper_names_clash_counterexample`. -/
+theorem C08_expandAll_helper_names_inherent_partial (n : String) (groups : Groups) (ps : List (T × List T × Option T))
+    (h : expandParts_em none groups = some ps) (hn : groups.all (fun g => selfName_em g == n) = true) :
+    (partsHelpers_em ps).map traitIdent = (List.range groups.length).map (genIdent n) ∧
+    ((partsHelpers_em ps).map traitIdent).Nodup ∧ n ∉ (partsHelpers_em ps).map traitIdent := by
+  have := partsHelpers_names_inherent_em h hn
+  rw [this]
+  exact ⟨rfl, C08_helper_names_nodup _ _, C08_helper_names_avoid_trait _ _⟩
+
+/-- both modes, PARTIAL in the other direction: with at most TEN families (executable side condition) all indices are
+    single digits and the helper traits have pairwise different names whatever the self-type names are — so the clash of
+    `C08_inherent_helper_names_clash_counterexample` needs at least eleven families -/
+theorem C08_expandAll_helper_names_nodup_small (trait_ : Option T) (groups : Groups) (ps : List (T × List T × Option T))
+    (h : expandParts_em trait_ groups = some ps) (hlen : groups.length ≤ 10) :
+    ((partsHelpers_em ps).map traitIdent).Nodup :=
+  partsHelpers_names_nodup_small_em h hlen
+
+/-! ### Examples and counterexamples -/
+
+namespace Ex08
+open Ex11 ExInh
+/-- `impl<T: Dispatch<Group = GroupA>> n<T> { pub fn name(&self) {} }` -/
+def inhBlock (n : String) : T :=
+  implInh [tyParam "T" [traitBound (dispatch "GroupA")]] (leaf "None") (adt n [tT]) [fnItem pubVis "name"]
+/-- eleven inherent blocks on eleven self types, the first `A1<T>`, the eleventh `A<T>` -/
+def clashItems : List T := ["A1", "B", "C", "D", "E", "F", "G", "H", "I", "J", "A"].map inhBlock
+/-- run the front end and the whole expansion and apply a Boolean test -/
+def checkAll (trait_ : Option T) (items : List T) (f : Groups → List (T × List T × Option T) → List T → Bool) : Bool :=
+  match parseGroups items with
+  | .ok groups =>
+      (match expandParts_em trait_ groups, expandAll trait_ groups with
+       | some ps, some top => f groups ps top
+       | _, _ => false)
+  | _ => false
+/-- a trait path `_Kita0` as a bound: the user refers to an item of THEIR scope that happens to be called `_Kita0` -/
+def userHelperNamedBound : T := traitBound (path [Ex11.seg "_Kita0"])
+/-- `impl<T: Dispatch<Group = GroupA> + _Kita0> Kita for T {}` -/
+def capturedBlock : T := implOf [tyParam "T" [traitBound (dispatch "GroupA"), userHelperNamedBound]] (Ex11.tyPath [Ex11.seg "T"])
+end Ex08
+
+section TopLevelExamples
+open Ex08
+set_option maxRecDepth 1000000
+
+/-- non-vacuity (trait mode): the README input expands; two top-level items, the trait — the tree the user wrote —
+    and the anonymous constant; one family, its helper trait is named `_Kita0`; the scope gains the name `Kita` only -/
+example : checkAll (some ExOK.kitaTrait) [Ex11.blockFor "GroupA", Ex11.blockFor "GroupB"] (fun groups ps top =>
+    groups.length == 1 && top.length == 2 && top.head? == some ExOK.kitaTrait && isItemTrait_em ExOK.kitaTrait &&
+    (partsHelpers_em ps).map traitIdent == ["_Kita0"] && top.flatMap itemBoundNames_em == ["Kita"] &&
+    (partsHelperImpls_em ps).length == 2 && (partsMainImpls_em ps).length == 1) = true := by
+  with_unfolding_all decide
+
+/-- non-vacuity (inherent mode): two blocks on `Wrapper<T>` expand to one anonymous constant and nothing else; the
+    helper trait is named `_Wrapper0`, the side condition of `C08_expandAll_helper_names_inherent_partial` holds -/
+example : checkAll none [ExInh.blockW "GroupA", ExInh.blockW "GroupB"] (fun groups ps top =>
+    groups.length == 1 && top.length == 1 && top.flatMap itemBoundNames_em == [] &&
+    groups.all (fun g => selfName_em g == "Wrapper") &&
+    (partsHelpers_em ps).map traitIdent == ["_Wrapper0"]) = true := by
+  with_unfolding_all decide
+
+/-- **Counterexample (new finding): helper names can clash in inherent mode.** Different families of an inherent-mode
+    invocation may be on different self types, and `format_ident!("_{}{}", ident, idx)` is not injective in the pair
+    (identifier, index): with eleven families, the first on `A1<T>` and the eleventh on `A<T>`, the helper traits of
+    family 0 and of family 10 are both named `_A10`, inside the same `const _` (rustc: E0428). The input is accepted
+    and every generator succeeds. -/
+theorem C08_inherent_helper_names_clash_counterexample :
+    checkAll none clashItems (fun groups ps _ =>
+      groups.length == 11 &&
+      ((partsHelpers_em ps).map traitIdent)[0]? == some "_A10" &&
+      ((partsHelpers_em ps).map traitIdent)[10]? == some "_A10") = true := by
+  with_unfolding_all decide
+
+/-- the arithmetic behind it: `_` ++ `A1` ++ `0` = `_` ++ `A` ++ `10` -/
+theorem C08_genIdent_not_injective_in_name : genIdent "A1" 0 = genIdent "A" 10 := by
+  with_unfolding_all decide
+
+/-- **Counterexample (finding D11): a user item named like a helper is shadowed inside the constant.** The block
+    `impl<T: Dispatch<Group = GroupA> + _Kita0> Kita for T {}` refers to an item `_Kita0` of the user's scope. The
+    invocation is accepted and expands; inside the anonymous constant a trait named `_Kita0` is defined (the helper
+    trait of family 0), and the user's bound `_Kita0` is copied verbatim into the generics of the first helper impl —
+    inside that constant, where the name now resolves to the generated helper trait, not to the user's item. -/
+theorem C08_user_item_shadowed_counterexample :
+    checkAll (some ExOK.kitaTrait) [capturedBlock, Ex11.blockFor "GroupB"] (fun groups ps top =>
+      groups.length == 1 && top.length == 2 &&
+      (partsHelpers_em ps).map traitIdent == ["_Kita0"] &&
+      (identsOf_inh capturedBlock).contains "_Kita0" &&
+      (match (partsHelperImpls_em ps)[0]? with
+       | some h => (identsOf_inh (XOK.kid h 3)).contains "_Kita0"
+       | none => false)) = true := by
+  with_unfolding_all decide
+end TopLevelExamples
 
 end DI
